@@ -40,7 +40,7 @@ def qStep (cfg : Cfg) (s : QSt) : QEv → QSt × Out
       ({ s with alive := false }, .panic "dosnode.DosNode.queryLoop|ifacenil|req.ctx.Done()#2")
     else
       let c := qcount rid s.buf + 1
-      ({ s with buf := qset rid c s.buf }, .ok s!"buf {c}")
+      ({ s with buf := qset rid c s.buf }, .ok "buf")
   | .reg rid => if !s.alive then (s, .dropped) else
     let c := qcount rid s.buf
     ({ s with reg := rid :: s.reg.filter (· != rid), buf := qset rid 0 s.buf }, .ok s!"flush {c}")
@@ -67,34 +67,36 @@ def uniq : List Bytes → List Bytes → List Bytes
 /-- index of a share: big-endian value of its first two bytes -/
 def shareIdx (b : Bytes) : Nat := beNat (b.take 2)
 
-/-- the verification loop of `tbls.Recover`: collect the indices of the first `t` shares that verify -/
-def collect (cfg : Cfg) (valid : Bytes → Bool) (t : Nat) : List Bytes → List Nat → Except Out (List Nat)
+/-- the verification loop of `tbls.Recover` (as repaired by 4404707 / 3dee076 / f036cda): an entry too
+short to carry an index is skipped, so is a second share with an index already collected and an index
+outside `[0,n)`; the first `t` remaining shares that verify are collected -/
+def collect (cfg : Cfg) (valid : Bytes → Bool) (t n : Nat) : List Bytes → List Nat → Except Out (List Nat)
   | [], acc => .ok acc
   | s :: r, acc =>
     if s.length < 2 then
-      (if cfg.sigIdxLen then .error (.err "eof") else .error (.panic "tbls.SigShare.Value|slice|[]byte(*s)[2:]"))
-    else if !valid s then collect cfg valid t r acc
+      (if cfg.sigIdxLen then collect cfg valid t n r acc else .error (.panic "tbls.SigShare.Value|slice|[]byte(*s)[2:]"))
+    else if cfg.recoverDedup && (shareIdx s ∈ acc || shareIdx s ≥ n) then collect cfg valid t n r acc
+    else if !valid s then collect cfg valid t n r acc
     else
       let acc' := acc ++ [shareIdx s]
-      if acc'.length ≥ t then .ok acc' else collect cfg valid t r acc'
+      if acc'.length ≥ t then .ok acc' else collect cfg valid t n r acc'
 
 /-- `RecoverCommit`: indices ≥ n are skipped; fewer than `t` left is an error; two shares with the
-same index make a Lagrange denominator zero (`Div` by zero: nil dereference inside `mod.Int`) unless
-de-duplicated -/
-def recoverCommit (cfg : Cfg) (t n : Nat) (idxs : List Nat) : Out :=
-  let good := idxs.filter (· < n)
-  let used := if cfg.recoverDedup then good.eraseDups else good
+same index make a Lagrange denominator zero (`Div` by zero: nil dereference inside `mod.Int`) -/
+def recoverCommit (t n : Nat) (idxs : List Nat) : Out :=
+  let used := idxs.filter (· < n)
   if used.length < t then .err "few"
-  else if used.eraseDups.length < used.length then .panic "share.RecoverCommit|callpanics|num.Div(num, den)"
+  else if !decide used.Nodup then .panic "share.RecoverCommit|callpanics|num.Div(num, den)"
   else .ok ""
 
 def tblsRecover (cfg : Cfg) (valid : Bytes → Bool) (t n : Nat) (sigs : List Bytes) : Out :=
-  match collect cfg valid t (uniq sigs []) [] with
+  match collect cfg valid t n (uniq sigs []) [] with
   | .error o => o
-  | .ok idxs => recoverCommit cfg t n idxs
+  | .ok idxs => recoverCommit t n idxs
 
 structure RsSt where
   shares : List Bytes := []
+  own : Option Bytes := none      -- content of the first share through (the node's own, cc9c5f7)
   done : Bool := false
   alive : Bool := true
   deriving Repr
@@ -113,6 +115,10 @@ def rsStep (cfg : Cfg) (valid : Bytes → Bytes → Bool) (t n : Nat) (st : RsSt
     | some s =>
       let sg := s.sig.getD []
       let c := s.content.getD []
+      -- shares whose content differs from the first one through are skipped
+      if st.own.isSome && st.own != some c then (st, .err "mismatch")
+      else
+      let st := { st with own := some c }
       let shares := st.shares ++ [sg]
       if shares.length < t then ({ st with shares := shares }, .ok "wait")
       else
@@ -153,7 +159,7 @@ def byte32 (cfg : Cfg) (len : Nat) : Out :=
 
 /-- `handleCR` up to `rand.Int`: a seed < 1 is replaced by the group order first -/
 def handleCRSeed (cfg : Cfg) (seed : Int) : Out :=
-  if cfg.crRand && seed < 1 then .ok "replaced"
+  if cfg.crRand && seed < 1 then .ok ""
   else if seed < 1 then .panic "dosnode.DosNode.handleCR|callpanics|rand.Int(rand.Reader, randSeed)"
   else .ok ""
 
